@@ -7,23 +7,75 @@ The extractor (harness/cmd/extract) regenerates, on every run and from the tree 
 function: its branching constructs in source order, each guard with its condition and with how its branch ends (`return <err>`,
 `continue`, `panic`, …). The hand-written model mirrors exactly these decisions (its `…Pre` / `…Guards` functions are the
 guards of the handlers, in their order). This theorem says that for the files the property is anchored in
-(x/node/genesis.go, x/sao/genesis.go, x/order/genesis.go, x/model/genesis.go, x/market/genesis.go, x/did/genesis.go, app/export.go, x/node/keeper/fault.go, x/node/keeper/fishing_reward.go, x/node/keeper/node.go) the regenerated skeletons equal the ones the model was written against. A change of a guard, of its
+(x/node/genesis.go, x/sao/genesis.go, x/order/genesis.go, x/model/genesis.go, x/market/genesis.go, x/did/genesis.go, app/export.go, x/node/keeper/fault.go, x/node/keeper/fishing_reward.go, x/node/keeper/node.go; and, because the anchored code calls into them, x_did_keeper_account_auth_go, x_did_keeper_account_id_go, x_did_keeper_account_list_go, x_did_keeper_did_balances_go, x_did_keeper_did_go, x_did_keeper_grpc_query_get_all_account_auth_go, x_did_keeper_kid_go, x_did_keeper_past_seeds_go, x_did_keeper_payment_address_go, x_did_keeper_sid_document_go, x_did_keeper_sid_document_version_go, x_market_keeper_worker_go, x_model_keeper_expired_data_go, x_model_keeper_metadata_go, x_model_keeper_model_go, x_node_keeper_pledge_debt_go, x_node_keeper_pledge_go, x_order_keeper_order_go, x_order_keeper_shard_go, x_sao_keeper_expired_shard_go, x_sao_keeper_timeout_order_go) the regenerated skeletons equal the ones the model was written against. A change of a guard, of its
 order, or a new or removed branch breaks it: the correspondence then has to be re-established (the check searches the
 histories for a failing input and reports the violation either way).
 -/
 namespace SaoVerif
 
 theorem C18_decision_skeleton_as_modelled :
-    Generated.Skel.x_node_genesis_go = Expected.Skel.x_node_genesis_go ∧
-    Generated.Skel.x_sao_genesis_go = Expected.Skel.x_sao_genesis_go ∧
-    Generated.Skel.x_order_genesis_go = Expected.Skel.x_order_genesis_go ∧
-    Generated.Skel.x_model_genesis_go = Expected.Skel.x_model_genesis_go ∧
-    Generated.Skel.x_market_genesis_go = Expected.Skel.x_market_genesis_go ∧
-    Generated.Skel.x_did_genesis_go = Expected.Skel.x_did_genesis_go ∧
-    Generated.Skel.app_export_go = Expected.Skel.app_export_go ∧
-    Generated.Skel.x_node_keeper_fault_go = Expected.Skel.x_node_keeper_fault_go ∧
-    Generated.Skel.x_node_keeper_fishing_reward_go = Expected.Skel.x_node_keeper_fishing_reward_go ∧
-    Generated.Skel.x_node_keeper_node_go = Expected.Skel.x_node_keeper_node_go := by
+    [Generated.Skel.x_node_genesis_go,
+     Generated.Skel.x_sao_genesis_go,
+     Generated.Skel.x_order_genesis_go,
+     Generated.Skel.x_model_genesis_go,
+     Generated.Skel.x_market_genesis_go,
+     Generated.Skel.x_did_genesis_go,
+     Generated.Skel.app_export_go,
+     Generated.Skel.x_node_keeper_fault_go,
+     Generated.Skel.x_node_keeper_fishing_reward_go,
+     Generated.Skel.x_node_keeper_node_go,
+     Generated.Skel.x_did_keeper_account_auth_go,
+     Generated.Skel.x_did_keeper_account_id_go,
+     Generated.Skel.x_did_keeper_account_list_go,
+     Generated.Skel.x_did_keeper_did_balances_go,
+     Generated.Skel.x_did_keeper_did_go,
+     Generated.Skel.x_did_keeper_grpc_query_get_all_account_auth_go,
+     Generated.Skel.x_did_keeper_kid_go,
+     Generated.Skel.x_did_keeper_past_seeds_go,
+     Generated.Skel.x_did_keeper_payment_address_go,
+     Generated.Skel.x_did_keeper_sid_document_go,
+     Generated.Skel.x_did_keeper_sid_document_version_go,
+     Generated.Skel.x_market_keeper_worker_go,
+     Generated.Skel.x_model_keeper_expired_data_go,
+     Generated.Skel.x_model_keeper_metadata_go,
+     Generated.Skel.x_model_keeper_model_go,
+     Generated.Skel.x_node_keeper_pledge_debt_go,
+     Generated.Skel.x_node_keeper_pledge_go,
+     Generated.Skel.x_order_keeper_order_go,
+     Generated.Skel.x_order_keeper_shard_go,
+     Generated.Skel.x_sao_keeper_expired_shard_go,
+     Generated.Skel.x_sao_keeper_timeout_order_go] =
+    [Expected.Skel.x_node_genesis_go,
+     Expected.Skel.x_sao_genesis_go,
+     Expected.Skel.x_order_genesis_go,
+     Expected.Skel.x_model_genesis_go,
+     Expected.Skel.x_market_genesis_go,
+     Expected.Skel.x_did_genesis_go,
+     Expected.Skel.app_export_go,
+     Expected.Skel.x_node_keeper_fault_go,
+     Expected.Skel.x_node_keeper_fishing_reward_go,
+     Expected.Skel.x_node_keeper_node_go,
+     Expected.Skel.x_did_keeper_account_auth_go,
+     Expected.Skel.x_did_keeper_account_id_go,
+     Expected.Skel.x_did_keeper_account_list_go,
+     Expected.Skel.x_did_keeper_did_balances_go,
+     Expected.Skel.x_did_keeper_did_go,
+     Expected.Skel.x_did_keeper_grpc_query_get_all_account_auth_go,
+     Expected.Skel.x_did_keeper_kid_go,
+     Expected.Skel.x_did_keeper_past_seeds_go,
+     Expected.Skel.x_did_keeper_payment_address_go,
+     Expected.Skel.x_did_keeper_sid_document_go,
+     Expected.Skel.x_did_keeper_sid_document_version_go,
+     Expected.Skel.x_market_keeper_worker_go,
+     Expected.Skel.x_model_keeper_expired_data_go,
+     Expected.Skel.x_model_keeper_metadata_go,
+     Expected.Skel.x_model_keeper_model_go,
+     Expected.Skel.x_node_keeper_pledge_debt_go,
+     Expected.Skel.x_node_keeper_pledge_go,
+     Expected.Skel.x_order_keeper_order_go,
+     Expected.Skel.x_order_keeper_shard_go,
+     Expected.Skel.x_sao_keeper_expired_shard_go,
+     Expected.Skel.x_sao_keeper_timeout_order_go] := by
   decide +kernel
 
 end SaoVerif
